@@ -4,7 +4,7 @@
 # /tmp/seed-<ID>: demo passes unchanged, patch applies, baseline tests unchanged, demo fails with the patch; then runs
 # the property's quick check against the patched worktree; stores everything under /verif/seeded/<ID>-<k>/; reverts.
 ID=$1; K=$2; shift 2
-WT=/tmp/seed-$ID; OUT=/tmp/seed-$ID-out; DEST=/verif/seeded/$ID-$K
+P=${SEEDPFX:-seed}; WT=/tmp/$P-$ID; OUT=/tmp/$P-$ID-out; DEST=/verif/seeded/$ID-$K
 cd $WT || exit 9
 git checkout -q -- . ; git status --short | grep -v '^??' && { echo "worktree dirty"; exit 9; }
 PYTHONPATH=$WT timeout 600 /venv/bin/python $OUT/demo_$K.py > /tmp/seed-demo0.log 2>&1; d0=$?
@@ -22,7 +22,7 @@ if [ $d0 = 0 ] && [ $d1 != 0 ] && echo "$t" | grep -q "52 failed, 111 passed"; t
   /venv/bin/python - "$ID" "$K" "$c" "$d0" "$d1" "$t" <<'P'
 import json,sys
 ID,K,c,d0,d1,t=sys.argv[1:7]
-m=json.load(open(f"/tmp/seed-{ID}-out/meta_{K}.json"))
+m=json.load(open(f"/tmp/{__import__('os').environ.get('SEEDPFX','seed')}-{ID}-out/meta_{K}.json"))
 first=[l.strip() for l in open("/tmp/seed-check.log") if "oracle=" in l][:1]
 meta={"property":ID,"origin":"independent sub-agent given only the property text and a scratch worktree","summary":m.get("summary"),"needs":m.get("needs"),"files":m.get("files"),
  "confirmed":{"baseline_tests_with_change":t,"demo_exit_unchanged":int(d0),"demo_exit_changed":int(d1),"how":"tools/seed_verify.sh: demo on the clean worktree, git apply, full pytest baseline, demo again"},
